@@ -11,11 +11,12 @@ Addresses are printed as (page index, offset) relative to the pages the run acqu
 import itertools, os, subprocess
 
 ID = "C15"; MODEL = "alloc"; IMPL = "alloc"
-COQ_PROP = "Properties/C15.v"; COQ_DIRS = ["Common", "Alloc"]
+COQ_PROP = "Properties/C15.v"; COQ_DIRS = ["Common", "CQueue", "Alloc"]
 COQ_MODULE = "Alloc.Model"; RUN_FN = "run"
 THEOREMS = ["C15_invariant_reachable", "C15_live_disjoint", "C15_aligned", "C15_inside_owned_page",
-            "C15_free_list_disjoint_from_live", "C15_reuse_only_after_free", "C15_alloc_total",
-            "C15_allocated_mem_formula", "C15_payload_dropped_exactly_once", "C15_payload_returned_as_inserted"]
+            "C15_free_list_disjoint_from_live", "C15_reuse_only_after_free", "C15_alloc_total", "C15_dealloc_total",
+            "C15_history_total", "C15_allocated_mem_formula", "C15_instance",
+            "C15_payload_dropped_exactly_once", "C15_payload_returned_as_inserted"]
 QUICK_N = 1500; THOROUGH_N = 60000
 XCHECK_N = 30
 RULE = ("55% allocator scripts (page 64..4096; 20-400 ops; sizes 0..page and beyond, aligns 1..page; phases fill / free-every-other / "
@@ -534,7 +535,8 @@ def monitor2(script, out):
         what = {1: "add", 2: "cancel", 3: "fetch"}[o[0]]
         if r["tag"] == 9:
             if o[0] != 3 or (hasdrop and any(v == "pending" for v in state.values())):
-                return "fetch reported an empty queue although payloads are pending"
+                lost = sorted(i for i in state if state[i] == "pending")
+                return "the queue reports empty although payload(s) %s were neither returned nor dropped (leaked by cancel?)" % lost[:10]
             continue
         m = events(r["evs"], what)
         if m: return m
